@@ -11,7 +11,7 @@ from harness import tlc, obs, strings as S, proj
 from harness.tlc import from_atoms, to_atoms
 from harness.props import c12, c19
 
-POOL = ['\\begin{myv}$ {\\end{myv} \\a{z}', '$m$ {g} \\textbf a \\label b', '\\begin{e}[o]{r}t\\end{e}', '\\a{x} $y$', '\\left( x \\right]',
+POOL = ['\\begin{myv}$ {\\end{myv} \\a{z}', '$m$ {g} \\textbf a \\label b', '\\newcommand{\\p}[2]{x} \\p{a}{b}', '\\p{a}{b}{c} a\r\nb \\x{y}\r\n', '\\begin{e}[o]{r}t\\end{e}', '\\a{x} $y$', '\\left( x \\right]',
         '\\section[s]{t}\n\n\\begin{itemize}\\item i\\end{itemize}', '$m$ \\[d\\] \\(p\\)', '\\def\\x y %c\nz']
 SKIP = ('myv',)
 FORMS = ['str', 'list', 'tuple', 'gen', 'file', 'chars', 'lines']
@@ -280,10 +280,10 @@ def run(chk):
     chk.count('seed_runs', len(SEEDS) * len(srcs))
     # (4) sessions
     dd = tlc.workdir('C17_session')
-    tlc.write_mc(dd, 'MCS', 'Session', ['MCForms == {%s}' % ', '.join(tlc.tla_str(f) for f in (['str', 'gen'] if quick else ['str', 'gen', 'file'])),
+    tlc.write_mc(dd, 'MCS', 'Session', ['MCForms == {%s}' % ', '.join(tlc.tla_str(f) for f in (['str'] if quick else ['str', 'gen'])),
                                         'MCEdits == {%s}' % ', '.join(tlc.tla_str(e) for e in EDITS)],
                  'SPECIFICATION Spec\nCONSTANTS\n NSrc = %d\n Forms <- MCForms\n EditKinds <- MCEdits\n MaxSteps = %d\n'
-                 'INVARIANT Dump\nPROPERTY Isolation\nCHECK_DEADLOCK FALSE\n' % (2, 4))
+                 'INVARIANT Dump\nPROPERTY Isolation\nCHECK_DEADLOCK FALSE\n' % (4, 4))
     sres = tlc.run(dd, 'MCS', timeout=3000)
     chk.add_tlc('session', sres, 'Session: all interleavings of parse/edit/reparse/drop on two documents, 4 steps')
     if sres.violated:
